@@ -6,8 +6,9 @@
     (fresh / updated / stale / sibling), snapshot (a snapshot operation iff the disk differs
     from the working-copy commit), the command's own operations, checkout of the new
     working-copy commit and recording of the last operation; with the variants
-    [--ignore-working-copy], [workspace update-stale], [workspace add] and the branch for a
-    workspace that is not in the loaded view.  [accept] replays one observed CLI step: the
+    [--ignore-working-copy], [--at-op] (whose operation becomes a second head, merged by the
+    next command), [workspace update-stale], [workspace add] and the branch for a workspace that
+    is not in the loaded view.  [accept] replays one observed CLI step: the
     model must reproduce the observed heads and every workspace's (disk, tree, operation).
     Trees are abstract values: equal numbers = equal file states. *)
 From Verif Require Import Base.Prelude Model.C42 Model.C40 Proofs.C42 Proofs.C40.
@@ -83,7 +84,8 @@ Theorem C40_checker_sound : forall (strict : bool) (rec : list (nat * N * N)) (e
               | None => True
               end)
              \/ (w = e_ws ev /\ e_status ev = 0%N /\ absent_from_view st w = false
-                 /\ e_kind ev <> KIgnoreWc)) ->
+                 /\ (e_kind ev = KNormal \/ e_kind ev = KUpdateStale
+                     \/ exists nw, e_kind ev = KWorkspaceAdd nw))) ->
             (exists i, i < length (s_ops st) + length (e_ops ev) /\ In (i, w, w_disk ws) rec)
             \/ (strict = false /\ w = e_ws ev /\ absent_from_view st w = true))
          /\ ok (mk_state (s_ops st ++ e_ops ev) (e_heads ev) (e_ws_post ev)) t
